@@ -1,6 +1,7 @@
 import Chewing.Model.Der
 import Chewing.Model.Dict
 import Chewing.Model.Syllable
+import Chewing.Model.TrieValidate
 /-!
 Model of `src/dictionary/trie.rs`: `TrieBuilder` (insert, write) and `Trie` (open, lookup for both
 strategies, entries, about), at the level of the **bytes** of the file.
@@ -258,11 +259,23 @@ def decBody (inner : Bytes) : Option (Trie × Bytes) :=
   | none => none
   | some (data, r5) => some ({ info, index, data }, r5)
 
-/-- `Trie::new` / `TrieOpenOptions::read_from`: `Document::try_from` + `decode_msg` -/
+/-- the 8 bytes at `off` as (u32, u16, u16) -/
+def viewAt (dict : Bytes) (off : Nat) : Rec :=
+  let s := (dict.drop off).take 8
+  (fromBE (s.take 4), fromBE ((s.drop 4).take 2), fromBE (s.drop 6))
+
+/-- the complete 8-byte records of the index (`index.len() / 8` of them; a trailing partial record is ignored) -/
+def parseRecs (index : Bytes) : List Rec := (List.range (index.length / 8)).map fun i => viewAt index (i * 8)
+
+/-- `validate_index(index, phrase_seq.len()).is_ok()` (`Model/TrieValidate.lean`): the index is a tree laid out in
+    breadth-first order — the structural check `read_from` runs since the repair of F16 / F17 -/
+def validIndex (index data : Bytes) : Bool := TrieValidate.validate (parseRecs index) data.length
+
+/-- `Trie::new` / `TrieOpenOptions::read_from`: `Document::try_from` + `decode_msg`, then `validate_index` -/
 def openTrie (bytes : Bytes) : Option Trie :=
   if bytes.length > maxLen then none else
   match decSeq decBody bytes with
-  | some (t, []) => some t
+  | some (t, []) => if validIndex t.index t.data then some t else none
   | _ => none
 
 /-- `Phrase::decode` -/
@@ -289,11 +302,6 @@ def decPhrasesFuel : Nat → Bytes → List Phrase
 /-- `PhrasesIter`: records until the slice is exhausted or one fails to decode
     (every record consumes at least one byte, so the fuel is never the reason to stop) -/
 def decPhrases (bs : Bytes) : List Phrase := decPhrasesFuel bs.length bs
-
-/-- the 8 bytes at `off` as (u32, u16, u16) -/
-def viewAt (dict : Bytes) (off : Nat) : Rec :=
-  let s := (dict.drop off).take 8
-  (fromBE (s.take 4), fromBE ((s.drop 4).take 2), fromBE (s.drop 6))
 
 def cbOf (v : Rec) : Nat := v.1 * 8
 def ceOf (v : Rec) : Nat := (v.1 + v.2.1) * 8
